@@ -6,6 +6,16 @@ VERIF = os.path.dirname(os.path.dirname(os.path.abspath(__file__)))
 rnd, outroot, wtprefix = sys.argv[1], sys.argv[2], sys.argv[3]
 props = [json.loads(l) for l in open(os.path.join(VERIF, "properties.jsonl"))]
 EMPH = {
+ "17": ("This round: a defect tied to TIME. The code must be right whenever it is exercised 'at once' and wrong only because of when something "
+        "happens or how long something has lasted: a periodic task (a ticker that dumps, flushes, refreshes, resizes the worker pool, reports "
+        "statistics, expires or re-resolves something) that interferes with the normal path when it fires; a timeout, deadline or idle period "
+        "after which a connection, socket, buffer or cache entry is treated differently; an age or expiry computed from timestamps (seconds versus "
+        "milliseconds, wall clock versus monotonic clock, a zero time, a timestamp in the future or far in the past, an export time or sysUpTime "
+        "taken from the datagram); the first seconds after start-up versus later; work that must finish within a grace period. The change should "
+        "look like something a maintainer would merge (template expiry, an idle timeout, a periodic flush, a start-up grace period, a deadline "
+        "on a write). Keep the time scales short enough that a test can show the violation in a few seconds (periods and timeouts of tens of "
+        "milliseconds to two or three seconds, or values taken from the datagram itself). It must not be detectable by a data-race detector "
+        "alone, and traffic that is sent and checked at once must look healthy."),
  "16": ("This round: a defect of SCALE or LONG UPTIME, the kind a short test with a handful of exporters never meets. The code must be right "
         "for a small, young collector and wrong only when some quantity has grown or wrapped: a counter, sequence number, index or size that "
         "passes 2^8, 2^15, 2^16, 2^31 or 2^32 (or a smaller limit the change itself introduces: a table of N slots, a ring of N entries, a "
